@@ -161,9 +161,13 @@ package engine
 //@     requires [only_complete_records] full && decoded
 //@     set called = true
 //@     set cberr = ret0
+//@   call putWalRowsObjects
+//@     never [decoded_buffer_stays_with_the_queued_record]
 //@   ensures [torn_tail_ends_the_file] result1 != nil ==> result1 == io.EOF || (called && result1 == cberr)
 //@   ensures [body_always_read_after_good_header] hdr && final(writeWalType) > WriteWalUnKnownType && final(writeWalType) < WriteWalEnd ==> reads == 2
 
+// (The decoded buffer travels with the record into the consumer's queue; the producer must not hand it back to the
+// pool - the next record would be decoded over a record that is still waiting: `never`.)
 // Recovery: the replayed log files are removed only after the replay returned without error AND the replayed
 // rows were flushed; the names removed are the ones the replay reported (planned in DESIGN §5 C01).
 //@ prop C01
